@@ -1,7 +1,7 @@
 (* C01 — replicas that exchanged everything show identical bugs. Property theorems only. *)
 From Coq Require Import List Arith NArith Lia Bool Sorting.Permutation.
 Import ListNotations.
-From GB Require Import Reach Sort Read Good Snoc World.
+From GB Require Import Reach Sort Read Good Snoc World Sync SyncProps.
 
 Theorem C01_dag_convergence s h1 h2 : valid s h1 = true -> valid s h2 = true ->
   let P1 := packs_of s (reachl s h1) in let P2 := packs_of s (reachl s h2) in
@@ -15,3 +15,11 @@ Theorem C01_reachable_valid n acts w : run (w0 n) acts = Some w -> (N.of_nat (le
   forall h, (h < length (st w))%nat -> valid (st w) h = true.
 Proof. exact (World.C01_reachable_valid n acts w). Qed.
 Print Assumptions C01_reachable_valid.
+
+(* the same at the level of user-visible sessions (commit, read, push, fetch, merge, remove, restart):
+   every session step is a run of commit-level steps (SyncProps.sstep_runs), so every commit of every
+   state of every session is accepted by read *)
+Theorem C01_session_valid n evs sw : srun (sw0 n) evs = Some sw -> (N.of_nat (total_cost evs) + 1 <= jump_limit)%N ->
+  forall h, (h < length (st (ww sw)))%nat -> valid (st (ww sw)) h = true.
+Proof. exact (session_valid n evs sw). Qed.
+Print Assumptions C01_session_valid.
